@@ -116,13 +116,21 @@ func checkC02(run *h.Run) {
 							outcomes.Add(fmt.Sprintf("%d/%d/%v", o.Status, len(o.Invoked), o.Allow))
 						}
 						if why != "" {
-							rc := routingCase{Sweep: sp.Name, Router: router.String(), Table: t, Req: w.reqs[qi], Observed: o, Expected: an.Exps}
+							rc := routingCase{Sweep: sp.Name, Router: router.String(), Table: t, Req: w.reqs[qi], Observed: o, Expected: an.Exps, Tier: run.Tier, Lite: trace && run.Tier == "quick", ReqIndex: qi}
 							qi := qi
-							run.Violate("outcome/"+router.String(), "", fmt.Sprintf("[%s trace=%v] %v ; %v : %s", router, trace, t, w.reqs[qi], why), rc, func() bool {
+							run.ViolateH("outcome/"+router.String(), "", fmt.Sprintf("[%s trace=%v] %v ; %v : %s", router, trace, t, w.reqs[qi], why), rc, func() bool {
 								b2 := rs.Build(t, rs.BuildOpt{Router: router})
 								o2 := b2.Do(w.reqs[qi].HTTP(), h.NewRec(), false)
 								w2, _ := judgeC02(p, w.mreqs[qi], router, o2)
 								return w2 != ""
+							}, func() bool {
+								b3 := rs.Build(t, rs.BuildOpt{Router: router})
+								var o3 rs.Outcome
+								for k := 0; k <= qi; k++ {
+									o3 = b3.Do(w.reqs[k].HTTP(), h.NewRec(), false)
+								}
+								w3, _ := judgeC02(p, w.mreqs[qi], router, o3)
+								return w3 != ""
 							})
 						}
 						if serveToo && !trace && w.reqs[qi].Method == "GET" && !w.reqs[qi].Empty {
